@@ -386,6 +386,25 @@ func c06R6(c *Ctx) {
 			c.R.Ob(rule, "NewBlockchainReactor:pool-starts-at-reconciled-height+1", ok, c.Pos(ci), fname(g), "after a crash between SaveBlock and State.Save the store is one ahead and is stepped back so that block is re-applied; the pool must start from the adjusted height: "+detail)
 		}
 	}
+	// RecoverFromCrash compares the application's height with blockstore.Height(): that value must be the
+	// persisted descriptor, i.e. nobody but the store's own constructor / SaveBlock / revert writes BlockStore.height
+	{
+		allowed := map[string]bool{"gemmill/blockchain.NewBlockStore": true, "gemmill/blockchain.(*BlockStore).SaveBlock": true, "gemmill/blockchain.(*BlockStore).RevertFromHeight": true, "gemmill/blockchain.(*BlockStore).DeleteBlock": true}
+		nw := 0
+		for _, fn := range c.P.RepoFuncs() {
+			if !strings.HasPrefix(core.Short(core.FuncName(fn)), "gemmill/") {
+				continue
+			}
+			g := c.Fn(fn)
+			for _, st := range g.FieldStores("gemmill/blockchain.BlockStore", "height") {
+				nw++
+				name := core.Short(core.FuncName(fn))
+				c.R.Ob(rule, "store-height-writer:"+name, allowed[name], c.Pos(st), core.FuncName(fn),
+					"BlockStore.height is rewritten in memory outside the store: RecoverFromCrash (run later, by ConnectApp) then sees a height that is not the persisted one — after a crash between the application's commit and State.Save it finds the application ahead of the store and the node cannot start")
+			}
+		}
+		c.R.Ob(rule, "store-height-writers", nw >= 2, "-", "", fmt.Sprintf("%d stores to BlockStore.height", nw))
+	}
 	f := c.Anchor(rule, "gemmill.(*Angine).ConnectApp")
 	if f == nil {
 		return
